@@ -127,17 +127,17 @@ func printStmt(sb *strings.Builder, n *N, depth int) {
 		printExpr(sb, n.A, depth)
 	case KExprS:
 		printExpr(sb, n.A, depth)
-	case KDefer:
-		sb.WriteString("defer ")
-		printExpr(sb, n.A, depth)
-		printGuard(sb, n, depth)
-	case KReturn:
-		sb.WriteString("return ")
-		printExpr(sb, n.A, depth)
-		printGuard(sb, n, depth)
-	case KRaise:
-		sb.WriteString("raise ")
-		printExpr(sb, n.A, depth)
+	case KDefer, KReturn, KRaise:
+		kw := map[string]string{KDefer: "defer", KReturn: "return", KRaise: "raise"}[n.K]
+		if n.Bool {
+			// the keyword directly followed by a parenthesised expression: `defer(e)`
+			sb.WriteString(kw + "(")
+			printExpr(sb, n.A, depth)
+			sb.WriteString(")")
+		} else {
+			sb.WriteString(kw + " ")
+			printExpr(sb, n.A, depth)
+		}
 		printGuard(sb, n, depth)
 	default:
 		panic("gen: not a statement: " + n.K)
